@@ -221,7 +221,7 @@ def check_class(fx, R, cq):
         return
     witness_grids(fx, R, cname, g, fi, origin, count, env, l, u, r, loc)
     if scalar == 'double':
-        floating_cover(fx, R, cname, st, env, loc)
+        floating_cover(fx, R, cname, st, env, loc, g)
     # ---- X1 table and index map ------------------------------------------------------------------
     loops = [x for x in walk(g['body']) if x.get('k') == 'For']
     inner = [L for L in loops if not any(y.get('k') == 'For' for y in walk(L['b']))]
@@ -577,7 +577,7 @@ def witness_grids(fx, R, cname, g, fi, origin, count, env, l, u, r, loc, grids=N
         R.holds('X6', inst, '%d witness extents, %d sample points: centres one resolution apart, centre(n) -> n, in-extent points indexed inside [0, N) within half a resolution of their centre' % (n_grids, n_pts), loc, 'E-STEP')
 
 
-def floating_cover(fx, R, cname, st, env, loc):
+def floating_cover(fx, R, cname, st, env, loc, g=None):
     """X7: the origin and cell-count statements of the interval constructor executed in IEEE double arithmetic (python floats are IEEE doubles; + - * / floor ceil and the truncating integer conversion are the
     same operations) on witness extents whose resolution is not a power of two.  The clause decided is macroscopic, not a rounding statement: the cells [origin, origin + N res] must reach the upper bound and
     start at or below the lower bound.  A count that is an integer only in exact arithmetic (a quotient that should cancel, then a truncating conversion) comes out one short for some of these extents and the last
@@ -631,6 +631,7 @@ def floating_cover(fx, R, cname, st, env, loc):
         raise _No(t)
     checked = 0
     bad = None
+    tables = []
     try:
         for res in (0.1, 0.2, 0.3, 0.05, 0.7, 0.15, 0.025):
             for i_ in range(-40, 41):
@@ -648,6 +649,8 @@ def floating_cover(fx, R, cname, st, env, loc):
                                 e_[s_[1][1]] = fev(s_[1][2] if s_[1][0] == '=' else (s_[1][0][0], s_[1][1], s_[1][2]), e_)
                         o_, n_ = e_['this.flooredMinimalPositionAlongAxes_'], e_['this.numberOfCellsAlongAxes_']
                         checked += 1
+                        if j_ == 3 and isinstance(n_, int) and 0 < n_ < 64:
+                            tables.append((lo, hi, res, o_, n_))
                         tol_ = 1e-6 * res
                         if not (isinstance(n_, int) and n_ > 0):
                             bad = bad or (lo, hi, res, o_, n_, 'the cell count is %r' % (n_,))
@@ -658,12 +661,57 @@ def floating_cover(fx, R, cname, st, env, loc):
     except (_No, KeyError) as ex:
         R.undecided('X7', cname + ':cover-in-double', 'origin / count statements not executable in floating point: %s' % (str(ex)[:100],))
         return
+    if not bad and g is not None:
+        table_in_double(fx, R, cname, g, tables, loc)
     if bad:
         R.violated('X7', 'GridIndexMapping:cover-in-double', 'executing the origin and cell-count statements of the interval constructor in IEEE double arithmetic on the extent [%r, %r] at resolution %r gives origin %r and '
                    'N = %r cells: %s.  In exact arithmetic the same statements give the right count - the expression is an integer only up to the rounding of a quotient / product that does not cancel in floating '
                    'point, and the conversion to the integer count truncates [%s]' % (bad[0], bad[1], bad[2], bad[3], bad[4], bad[5], cname), loc, 'E-STEP')
     else:
         R.holds('X7', cname + ':cover-in-double', 'origin and count executed in IEEE double arithmetic on %d witness extents (resolutions that are not powers of two): the cells reach both bounds' % checked, loc, 'E-STEP')
+
+
+def table_in_double(fx, R, cname, g, tables, loc):
+    """X7, centre table: the per-axis body of the constructor's table loop executed in IEEE double arithmetic (E-STEP, concrete sequence) with the origin and count computed for each witness extent: the table
+    must have N entries, entry n = origin + (n + 1/2) res to 1e-6 of a cell.  A fill loop whose stop test compares floating-point positions leaves the last entry unwritten for some extents."""
+    import math
+    from .. import mini
+    outer = [x for x in walk(g['body']) if x.get('k') == 'For' and any(y.get('k') == 'For' for y in walk(x.get('b')))]
+    if len(outer) != 1 or not (outer[0].get('init') and outer[0]['init'].get('k') == 'Decl' and len(outer[0]['init']['vars']) == 1):
+        return
+    dim = outer[0]['init']['vars'][0]['name']
+    bad = None
+    done = 0
+    for (lo, hi, res, o_, n_) in tables:
+        S_ = mini.Step(deep_unwrap, index_vars={dim})
+        mini.list_hooks(S_, loops=200)
+        for nm_, fn_ in (('ceil', math.ceil), ('floor', math.floor)):
+            for pre_ in ('', 'std::', 'Eigen::'):
+                S_.hooks[pre_ + nm_] = lambda t, env, fn_=fn_, S_=S_: float(fn_(S_.ev(t[1], env)))
+        tab = []                 # the axis is abstracted (index_vars): the per-axis table is the member itself
+        e_ = {dim: 0, ('.lower', 'extrimities'): lo, ('.upper', 'extrimities'): hi, 'this.cellResolution_': res, 'cellResolution': res, 'this.flooredMinimalPositionAlongAxes_': o_,
+              'this.numberOfCellsAlongAxes_': n_, 'this.cellCentersPositionAlongAxes_': tab}
+        try:
+            S_.run(outer[0]['b'], e_)
+        except (mini.Unsupported, mini.Returned, TypeError, KeyError, IndexError, ZeroDivisionError) as ex:
+            R.undecided('X7', cname + ':table-in-double', 'table loop not executable in floating point: %s' % (str(ex)[:120],))
+            return
+        got = tab
+        done += 1
+        if len(got) != n_:
+            bad = bad or (lo, hi, res, o_, n_, 'the table has %d entries for N = %d cells' % (len(got), n_))
+            continue
+        for k_, v_ in enumerate(got):
+            want = o_ + (k_ + 0.5) * res
+            if not isinstance(v_, (int, float)) or abs(v_ - want) > 1e-6 * res:
+                bad = bad or (lo, hi, res, o_, n_, 'entry %d of the table is %r, the centre of cell %d is %.12g%s' % (k_, v_, k_, want, ' - the entry was never written (the vector is zero-filled by resize)' if v_ == 0 else ''))
+                break
+    if bad:
+        R.violated('X7', 'GridIndexMapping:table-in-double', 'executing the table loop of the interval constructor in IEEE double arithmetic on the extent [%r, %r] at resolution %r (origin %r, N = %r): %s.  The centres '
+                   'read back from the table (getCellCentersPositionAlong, computeCellCenterPosition, the ray caster\'s first crossings) are then not one resolution apart and the last cell does not map back to '
+                   'its own index [%s]' % (bad[0], bad[1], bad[2], bad[3], bad[4], bad[5], cname), loc, 'E-STEP')
+    elif done:
+        R.holds('X7', cname + ':table-in-double', 'table loop executed in IEEE double arithmetic on %d witness extents: N entries, entry n = origin + (n + 1/2) res' % done, loc, 'E-STEP')
 
 
 def check_self_pointers(fx, R, cq):
